@@ -63,6 +63,7 @@ func catalogue(r *vh.Run, rng *vh.RNG) []job {
 		jobs = append(jobs, isolate(r, j))
 	}
 	jobs = append(jobs, bootstrapJobs(r, w)...)
+	jobs = append(jobs, hitRunJobs(w)...)
 	jobs = append(jobs, fakeStateJob(wl))
 	jobs = append(jobs, relayJobs(w)...)
 	jobs = append(jobs, mixedJobs(w, wl, rng)...)
